@@ -228,7 +228,7 @@ fn check_reread(l: &Live, text: &str) -> Result<(), (&'static str, String)> {
 }
 
 fn same_text(b: &Flat, a: &Flat) -> bool {
-    b.kind == a.kind && (b.text == a.text || (!b.text.ends_with('\n') && a.text.len() == b.text.len() + 1 && a.text.starts_with(&b.text) && a.text.ends_with('\n')))
+    b.kind == a.kind && (b.text == a.text || (!b.text.ends_with(['\n', '\r']) && a.text.len() == b.text.len() + 1 && a.text.starts_with(&b.text) && a.text.ends_with('\n')))
 }
 
 fn seq_equal(b: &[&Flat], a: &[&Flat]) -> Result<(), String> {
@@ -409,7 +409,7 @@ fn prestate_field(l: &Live, para: u32, name: &str, text: &str) -> String {
     if f.is_empty() {
         p.push("para-empty");
     }
-    if l.model.attached(para) && !text.is_empty() && !text.ends_with('\n') && last_text_para(&l.model) == Some(para) {
+    if l.model.attached(para) && !text.is_empty() && !text.ends_with(['\n', '\r']) && last_text_para(&l.model) == Some(para) {
         p.push("last-line-unterminated");
     }
     if l.model.attached(para) && para_ends_in_comment(text, l.model.text_ordinal(para)) {
@@ -433,7 +433,7 @@ fn prestate_para(l: &Live, index: Option<usize>, text: &str) -> String {
     if text.starts_with('#') {
         p.push("leading-comment-block".into());
     }
-    if !text.is_empty() && !text.ends_with('\n') {
+    if !text.is_empty() && !text.ends_with(['\n', '\r']) {
         p.push("no-final-newline".into());
     }
     if l.model.doc.iter().any(|id| l.model.paras[id].is_empty()) {
@@ -914,7 +914,8 @@ pub fn generate(rng: &mut Rng, tier: Tier, para_foreground: bool) -> Case {
                 Ev::AddPara { client, out }
             }
             8 => {
-                let index = if rng.chance(1, 6) { model.doc.len() + rng.below(3) } else { rng.below(model.doc.len() + 1) };
+                // beyond the end means "append", however far beyond
+                let index = if rng.chance(1, 6) { if rng.chance(1, 4) { *rng.pick(&[usize::MAX, usize::MAX - 1, usize::MAX / 2, 1usize << 32]) } else { model.doc.len() + rng.below(3) } } else { rng.below(model.doc.len() + 1) };
                 let out = next_out;
                 next_out += 1;
                 let id = model.insert_paragraph(index);
@@ -922,7 +923,7 @@ pub fn generate(rng: &mut Rng, tier: Tier, para_foreground: bool) -> Case {
                 Ev::InsertPara { client, index, out }
             }
             9 => {
-                let index = if rng.chance(1, 6) { model.doc.len() + rng.below(3) } else { rng.below(model.doc.len().max(1)) };
+                let index = if rng.chance(1, 6) { if rng.chance(1, 4) { *rng.pick(&[usize::MAX, usize::MAX - 1, usize::MAX / 2]) } else { model.doc.len() + rng.below(3) } } else { rng.below(model.doc.len().max(1)) };
                 model.remove_paragraph(index);
                 Ev::RemovePara { index }
             }
